@@ -139,6 +139,11 @@ class Tr:
             return "SSkip"
         # otherwise: must be pure
         for n in ast.walk(st):
+            if isinstance(n, ast.Call) and u(n.func) == "os.write":
+                # the protocol language has no raw descriptor write: whether its RESULT (bytes actually written) is
+                # checked / looped on decides if a short write(2) installs a truncated file -- keep failing closed
+                raise TranslateError(f"{self.fname}: raw os.write on the temp descriptor is outside the protocol language "
+                                     f"(short writes: result {'ignored' if isinstance(st, ast.Expr) else 'bound'}): {t[:60]}")
             if isinstance(n, ast.Call):
                 need(u(n.func) in PURE_CALLS, f"{self.fname}: call not understood (fail closed): {u(n)[:80]}")
             need(not isinstance(n, (ast.Await, ast.Yield, ast.YieldFrom, ast.Lambda)), f"{self.fname}: await/yield in block")
